@@ -5,7 +5,7 @@ import random
 
 from ..oracles import rodrigues
 
-RULE = ("family cases enumerate one zero/sign pattern of the axis (26 patterns) x magnitudes "
+RULE = ("family cases enumerate one zero/sign pattern of the axis (26 patterns; every zero as +0.0 and -0.0) x magnitudes "
         "{2^-10,0.5,1,2,1e3} per non-zero component x 15 angles x 7 vectors (parallel, "
         "antiparallel, 2 orthogonal, 3 random); random cases draw triples with component "
         "magnitudes log-uniform in [1e-3,1e3]; pipeline cases run structures in lattice "
@@ -85,13 +85,20 @@ def run_case(case, tier):
     if kind == "family":
         pat = case["pattern"]
         nzs = [i for i in range(3) if pat[i]]
-        for mags in itertools.product(MAGS, repeat=len(nzs)):
-            axis = [0.0, 0.0, 0.0]
-            for i, m in zip(nzs, mags):
-                axis[i] = pat[i] * m
-            for theta in ANGLES + (rng.uniform(-7, 7),):
-                for vec, nt in _vectors(axis, rng):
-                    one(theta, axis, vec, nt)
+        zs = [i for i in range(3) if not pat[i]]
+        # a zero component is enumerated as +0.0 and as -0.0 (what -Vector(...) or "-0.000" give)
+        for zsigns in itertools.product((0.0, -0.0), repeat=len(zs)):
+            for mags in itertools.product(MAGS, repeat=len(nzs)):
+                axis = [0.0, 0.0, 0.0]
+                for i, z in zip(zs, zsigns):
+                    axis[i] = z
+                for i, m in zip(nzs, mags):
+                    axis[i] = pat[i] * m
+                for theta in ANGLES + (rng.uniform(-7, 7),):
+                    for vec, nt in _vectors(axis, rng):
+                        one(theta, axis, vec, nt)
+            if any(math.copysign(1.0, z) < 0 for z in zsigns):
+                counts["negative_zero_axes"] = counts.get("negative_zero_axes", 0) + len(MAGS) ** len(nzs)
         classes.append("pattern:" + rodrigues.pattern(pat))
         sample = {"kind": "family", "pattern": rodrigues.pattern(pat),
                   "axes": 5 ** len(nzs), "example_axis": axis}
@@ -101,7 +108,7 @@ def run_case(case, tier):
             scale = 10 ** rng.uniform(-8, 3) if rng.random() < 0.3 else 1.0      # short axes (nearly parallel bonds) too
             axis = [rng.choice((1, -1)) * scale * 10 ** rng.uniform(-3, 3) for _ in range(3)]
             if rng.random() < 0.15:
-                axis[rng.randrange(3)] = 0.0
+                axis[rng.randrange(3)] = rng.choice((0.0, -0.0))
             theta = rng.uniform(-2 * math.pi, 2 * math.pi)
             vec = [rng.uniform(-5, 5) for _ in range(3)]
             one(theta, axis, vec, True)
